@@ -64,7 +64,11 @@ def run_threads_case(case):
                 w.start()
             if case['main'] in ('discard', 'discard-join'):
                 tr.discard_recording()
-            if case['main'] in ('join', 'discard-join'):
+            elif case['main'] in ('disable', 'disable-join'):
+                # the service's kill switch flipped while worker interceptions are in flight (after F15: switch off, then
+                # discard - for the workers the same shared reads and writes as a discard by the main thread)
+                tr.disable_recording()
+            if case['main'] in ('join', 'discard-join', 'disable-join'):
                 for w in workers:
                     w.join()
             return 'done'
@@ -119,7 +123,8 @@ def gen_base(rng):
                           'prepare_fails': site == 'in' and rng.random() < 0.15,
                           'key_fails': site == 'in' and rng.random() < 0.1})
         workers.append(calls)
-    return {'kind': 'threads', 'main': rng.choice(['return', 'discard', 'join', 'discard-join', 'return', 'discard']),
+    return {'kind': 'threads', 'main': rng.choice(['return', 'discard', 'join', 'discard-join', 'return', 'discard', 'disable',
+                                                   'disable-join']),
             'workers': workers, 'copy': rng.random() < 0.5}
 
 
